@@ -22,12 +22,12 @@ import (
 
 // Lookup is one site that obtains a hash.Hash.
 type Lookup struct {
-	Fn       *ssa.Function
-	Pos      string
-	Kind     string // "registry" or "direct"
-	HashID   int64  // registry id, -1 if not constant
-	Callee   string
-	Linked   bool
+	Fn        *ssa.Function
+	Pos       string
+	Kind      string // "registry" or "direct"
+	HashID    int64  // registry id, -1 if not constant
+	Callee    string
+	Linked    bool
 	Registrar string
 }
 
